@@ -28,7 +28,7 @@ Proof.
 Qed.
 
 Lemma fa_resume_io_state ffuel mk : forall fuel r r' k,
-  fa_resume fuel ffuel mk r = (r', RsErr (FaIo k)) -> st r' = FFinished.
+  fa_resume fuel ffuel mk r = (r', RsErr (FaIo k)) -> st r' = FFinished /\ buf r' = [].
 Proof.
   induction fuel as [|f IH]; intros r r' k H; cbn [fa_resume] in H; [discriminate|].
   destruct (if negb mk || (start r =? 0) then fa_grow r else fa_make_room r) as [r1 g] eqn:E1.
@@ -38,7 +38,7 @@ Proof.
     - destruct (fa_make_room_run false _ _ _ E1) as (_ & _ & _ & _ & _ & _ & Hne). exfalso. apply (Hne e). reflexivity. }
   destruct g as [|e|s]; [|inversion H; subst; discriminate (Hg _ eq_refl)|discriminate].
   destruct (fa_fill ffuel r1) as [r2 fr] eqn:E2.
-  destruct fr as [n|k'|]; [|inversion H; subst; reflexivity|discriminate].
+  destruct fr as [n|k'|]; [|inversion H; subst; split; reflexivity|discriminate].
   destruct (fa_search r2) as [r3 sr] eqn:E3.
   destruct sr as [[|]|s]; try discriminate.
   apply (IH _ _ _ H).
@@ -54,7 +54,7 @@ Proof.
 Qed.
 
 Lemma fa_next_tail_io_state fuel ffuel r r' k :
-  fa_next_tail fuel ffuel r = (r', OErr (FaIo k)) -> st r' = FFinished.
+  fa_next_tail fuel ffuel r = (r', OErr (FaIo k)) -> st r' = FFinished /\ buf r' = [].
 Proof.
   unfold fa_next_tail. intros H.
   destruct (if fa_state_eqb (st r) FIncomplete then (r, SFound true) else fa_search r) as [r1 sr].
@@ -65,10 +65,10 @@ Proof.
   inversion H; subst. apply (fa_resume_io_state _ _ _ _ _ _ E2).
 Qed.
 
-(** [next]: an I/O error finishes the reader, unless it was raised by [init]
-    (then the reader is still [New] and the call can be repeated) *)
-Theorem fa_next_io_state fuel ffuel r r' k : fa_next fuel ffuel r = (r', OErr (FaIo k)) ->
-  (st r = FNew /\ st r' = FNew) \/ st r' = FFinished.
+(** [next]: an I/O error finishes the reader and drops its buffer, unless it was
+    raised by [init] (then the reader is still [New] and the call can be repeated) *)
+Theorem fa_next_io_buffer fuel ffuel r r' k : fa_next fuel ffuel r = (r', OErr (FaIo k)) ->
+  (st r = FNew /\ st r' = FNew) \/ (st r' = FFinished /\ buf r' = []).
 Proof.
   unfold fa_next. intros H. destruct (st r) eqn:Es.
   - destruct (fa_init fuel ffuel r) as [r1 ir] eqn:E1.
@@ -81,8 +81,12 @@ Proof.
   - discriminate.
 Qed.
 
+Theorem fa_next_io_state fuel ffuel r r' k : fa_next fuel ffuel r = (r', OErr (FaIo k)) ->
+  (st r = FNew /\ st r' = FNew) \/ st r' = FFinished.
+Proof. intros H. destruct (fa_next_io_buffer _ _ _ _ _ H) as [A|[A _]]; [left|right]; exact A. Qed.
+
 Lemma fa_set_loop_io_state rfuel ffuel : forall fuel n is_new r rs r' rs' k,
-  fa_set_loop fuel rfuel ffuel n is_new r rs = (r', rs', LErr (FaIo k)) -> st r' = FFinished.
+  fa_set_loop fuel rfuel ffuel n is_new r rs = (r', rs', LErr (FaIo k)) -> st r' = FFinished /\ buf r' = [].
 Proof.
   induction fuel as [|f IH]; intros n is_new r rs r' rs' k H; cbn [fa_set_loop] in H; [discriminate|].
   destruct (fa_state_eqb (st r) FFinished); [discriminate|].
@@ -92,7 +96,7 @@ Proof.
       | None => (r2, rs3, LPanic 3)
       | Some r4 => if reached n (snpos rs3) then (r4, rs3, LDone)
                    else fa_set_loop f rfuel ffuel n is_new r4 rs3
-      end) = (r', rs', LErr (FaIo k)) -> st r' = FFinished).
+      end) = (r', rs', LErr (FaIo k)) -> st r' = FFinished /\ buf r' = []).
   { intros r2 rs2 Hq. cbv zeta in Hq. destruct (fa_increment r2) as [r4|]; [|discriminate].
     destruct (reached n (snpos (fa_set_put rs2 r2))); [discriminate|]. apply (IH _ _ _ _ _ _ _ Hq). }
   destruct (fa_state_eqb (st r) FIncomplete) eqn:Einc.
@@ -106,14 +110,14 @@ Proof.
       destruct (below n (snpos rs)); [apply (IH _ _ _ _ _ _ _ H)|discriminate].
 Qed.
 
-Theorem fa_read_set_io_state fuel ffuel n r rs r' rs' k :
+Theorem fa_read_set_io_buffer fuel ffuel n r rs r' rs' k :
   fa_read_set fuel ffuel n r rs = (r', rs', OErr (FaIo k)) ->
-  (st r = FNew /\ st r' = FNew) \/ st r' = FFinished.
+  (st r = FNew /\ st r' = FNew) \/ (st r' = FFinished /\ buf r' = []).
 Proof.
   unfold fa_read_set. intros H.
   assert (Hgo : forall r0,
      fa_set_finish (fa_set_loop fuel fuel ffuel n true r0 (mkFaSet (sbuf rs) (spositions rs) 0)) = (r', rs', OErr (FaIo k)) ->
-     st r' = FFinished).
+     st r' = FFinished /\ buf r' = []).
   { intros r0 Hq. destruct (fa_set_loop fuel fuel ffuel n true r0 (mkFaSet (sbuf rs) (spositions rs) 0)) as [[r1 rs1] lr] eqn:E.
     unfold fa_set_finish in Hq. destruct lr as [|e|s| |]; try discriminate. inversion Hq; subst.
     apply (fa_set_loop_io_state _ _ _ _ _ _ _ _ _ _ E). }
@@ -128,11 +132,16 @@ Proof.
   - discriminate.
 Qed.
 
+Theorem fa_read_set_io_state fuel ffuel n r rs r' rs' k :
+  fa_read_set fuel ffuel n r rs = (r', rs', OErr (FaIo k)) ->
+  (st r = FNew /\ st r' = FNew) \/ st r' = FFinished.
+Proof. intros H. destruct (fa_read_set_io_buffer _ _ _ _ _ _ _ _ H) as [A|[A _]]; [left|right]; exact A. Qed.
+
 (** [seek]: an I/O error is either the failed source seek -- then nothing but
     source and log changed -- or the failed refill after it -- then the reader is finished *)
 Theorem fa_seek_io_state ffuel r line byte_ r' k : fa_seek ffuel r line byte_ = (r', OErr (FaIo k)) ->
   (log r' = EvSeek byte_ (Some k) :: log r /\ r' = set_log (set_src r (src r')) (log r')) \/
-  (exists off rest, log r' = EvRead off (RFailed k) :: rest ++ EvSeek byte_ None :: log r /\ st r' = FFinished).
+  (exists off rest, log r' = EvRead off (RFailed k) :: rest ++ EvSeek byte_ None :: log r /\ st r' = FFinished /\ buf r' = []).
 Proof.
   unfold fa_seek. intros H.
   destruct ((0 <=? Z.of_nat (start r) + (Z.of_nat byte_ - Z.of_nat (pbyte r)))%Z &&
@@ -143,7 +152,7 @@ Proof.
   - match type of H with (let '(r1, fr) := fa_fill ffuel ?R in _) = _ => set (r0 := R) in * end.
     destruct (fa_fill ffuel r0) as [r1 fr] eqn:E1.
     destruct fr as [n|k'|]; try discriminate. inversion H; subst. right.
-    destruct (fa_fill_err_event _ _ _ _ E1) as (off & rest & L). exists off, rest. fa_simpl. split; [exact L|reflexivity].
+    destruct (fa_fill_err_event _ _ _ _ E1) as (off & rest & L). exists off, rest. fa_simpl. splits; [exact L|reflexivity|reflexivity].
 Qed.
 
 Lemma fa_read_set_finished_sticky fuel ffuel n r rs : st r = FFinished -> fa_read_set fuel ffuel n r rs = (r, rs, ONone).
@@ -156,7 +165,7 @@ Theorem fa_seek_refill_error_final ffuel r line byte_ r' k off rest :
   (forall fuel ffuel2, fa_next fuel ffuel2 r' = (r', ONone)) /\
   (forall fuel ffuel2 n rs, fa_read_set fuel ffuel2 n r' rs = (r', rs, ONone)).
 Proof.
-  intros H L. destruct (fa_seek_io_state _ _ _ _ _ _ H) as [[L' _]|(o & rs & _ & Hst)]; [congruence|].
+  intros H L. destruct (fa_seek_io_state _ _ _ _ _ _ H) as [[L' _]|(o & rs & _ & Hst & _)]; [congruence|].
   splits; [exact Hst| |].
   - intros. apply fa_finished_sticky. exact Hst.
   - intros. apply fa_read_set_finished_sticky. exact Hst.
@@ -208,7 +217,7 @@ Proof.
 Qed.
 
 Lemma fq_resume_io_state ffuel mk : forall fuel s r r' k,
-  fq_resume fuel ffuel s mk r = (r', QrErr (FqIo k)) -> qst r' = QFinished.
+  fq_resume fuel ffuel s mk r = (r', QrErr (FqIo k)) -> qst r' = QFinished /\ qbuf r' = [].
 Proof.
   induction fuel as [|f IH]; intros s r r' k H; cbn [fq_resume] in H; [discriminate|].
   destruct (length (qbuf r) <? qcap r).
@@ -220,7 +229,7 @@ Proof.
     - destruct (fq_make_room_facts _ _ _ _ E1) as (_ & _ & _ & Hne & _). exfalso. apply (Hne e). reflexivity. }
   destruct g as [|e|x]; [|inversion H; subst; discriminate (Hg _ eq_refl)|discriminate].
   destruct (fq_fill ffuel r1) as [r2 fr] eqn:E2.
-  destruct fr as [n|k'|]; [|inversion H; subst; reflexivity|discriminate].
+  destruct fr as [n|k'|]; [|inversion H; subst; split; reflexivity|discriminate].
   destruct (fq_search_from s true r2) as [r3 sr] eqn:E3.
   destruct (fq_search_from_facts _ _ _ _ _ E3) as (_ & _ & Hcls & _).
   destruct sr as [|s'|e|x]; try discriminate.
@@ -229,7 +238,7 @@ Proof.
 Qed.
 
 Lemma fq_next_tail_io_state fuel ffuel r r' k :
-  fq_next_tail fuel ffuel r = (r', QOErr (FqIo k)) -> qst r' = QFinished.
+  fq_next_tail fuel ffuel r = (r', QOErr (FqIo k)) -> qst r' = QFinished /\ qbuf r' = [].
 Proof.
   unfold fq_next_tail. intros H.
   destruct (match inc r with None => fq_search_from Head false r | Some _ => (r, QsRec) end) as [r1 sr] eqn:E1.
@@ -246,7 +255,7 @@ Proof.
           | QrOk true => (r2, QORec (fq_cur r2))
           end
       | None => (r1, QORec (fq_cur r1))
-      end = (r', QOErr (FqIo k)) -> qst r' = QFinished).
+      end = (r', QOErr (FqIo k)) -> qst r' = QFinished /\ qbuf r' = []).
   { intros Hq. destruct (inc r1) as [s|]; [|discriminate].
     destruct (fq_resume fuel ffuel s true r1) as [r2 rr] eqn:E2.
     destruct rr as [[|]|e|x|]; try discriminate. inversion Hq; subst. apply (fq_resume_io_state _ _ _ _ _ _ _ E2). }
@@ -254,10 +263,10 @@ Proof.
   inversion H; subst. discriminate Hcls.
 Qed.
 
-(** [next]: an I/O error finishes the reader, unless it was raised by [init]
-    (then the reader is still [New] and the call can be repeated) *)
-Theorem fq_next_io_state fuel ffuel r r' k : fq_next fuel ffuel r = (r', QOErr (FqIo k)) ->
-  (qst r = QNew /\ qst r' = QNew) \/ qst r' = QFinished.
+(** [next]: an I/O error finishes the reader and drops its buffer, unless it was
+    raised by [init] (then the reader is still [New] and the call can be repeated) *)
+Theorem fq_next_io_buffer fuel ffuel r r' k : fq_next fuel ffuel r = (r', QOErr (FqIo k)) ->
+  (qst r = QNew /\ qst r' = QNew) \/ (qst r' = QFinished /\ qbuf r' = []).
 Proof.
   unfold fq_next. intros H. destruct (qst r) eqn:Es.
   - destruct (fq_init ffuel r) as [r1 ir] eqn:E1.
@@ -273,8 +282,12 @@ Proof.
   - discriminate.
 Qed.
 
+Theorem fq_next_io_state fuel ffuel r r' k : fq_next fuel ffuel r = (r', QOErr (FqIo k)) ->
+  (qst r = QNew /\ qst r' = QNew) \/ qst r' = QFinished.
+Proof. intros H. destruct (fq_next_io_buffer _ _ _ _ _ H) as [A|[A _]]; [left|right]; exact A. Qed.
+
 Lemma fq_set_loop_io_state rfuel ffuel : forall fuel n is_new r ps r' ps' k,
-  fq_set_loop fuel rfuel ffuel n is_new r ps = (r', ps', QLErr (FqIo k)) -> qst r' = QFinished.
+  fq_set_loop fuel rfuel ffuel n is_new r ps = (r', ps', QLErr (FqIo k)) -> qst r' = QFinished /\ qbuf r' = [].
 Proof.
   induction fuel as [|f IH]; intros n is_new r ps r' ps' k H; cbn [fq_set_loop] in H; [discriminate|].
   destruct (fq_state_eqb (qst r) QFinished); [discriminate|].
@@ -284,7 +297,7 @@ Proof.
       | None => (r2, ps2, QLPanic 3)
       | Some r4 => if reached n (length ps2) then (r4, ps2, QLDone)
                    else fq_set_loop f rfuel ffuel n is_new r4 ps2
-      end) = (r', ps', QLErr (FqIo k)) -> qst r' = QFinished).
+      end) = (r', ps', QLErr (FqIo k)) -> qst r' = QFinished /\ qbuf r' = []).
   { intros r2 Hq. cbv zeta in Hq. destruct (fq_increment r2) as [r4|]; [|discriminate].
     destruct (reached n (length (ps ++ [fq_bp r2]))); [discriminate|]. apply (IH _ _ _ _ _ _ _ Hq). }
   destruct (inc r) as [s|].
@@ -302,9 +315,9 @@ Proof.
     + inversion H; subst. discriminate Hcls.
 Qed.
 
-Theorem fq_read_set_io_state fuel ffuel n r rs r' rs' k :
+Theorem fq_read_set_io_buffer fuel ffuel n r rs r' rs' k :
   fq_read_set fuel ffuel n r rs = (r', rs', QOErr (FqIo k)) ->
-  (qst r = QNew /\ qst r' = QNew) \/ qst r' = QFinished.
+  (qst r = QNew /\ qst r' = QNew) \/ (qst r' = QFinished /\ qbuf r' = []).
 Proof.
   unfold fq_read_set. intros H.
   assert (Hgo : forall r0,
@@ -315,7 +328,7 @@ Proof.
       | QLPanic x => (r1, mkFqSet (qsbuf rs) ps, QOPanic x)
       | QLFuel => (r1, mkFqSet (qsbuf rs) ps, QOFuel)
       | QLNone => (r1, mkFqSet (qsbuf rs) ps, QONone)
-      end) = (r', rs', QOErr (FqIo k)) -> qst r' = QFinished).
+      end) = (r', rs', QOErr (FqIo k)) -> qst r' = QFinished /\ qbuf r' = []).
   { intros r0 Hq. destruct (fq_set_loop fuel fuel ffuel n true r0 []) as [[r1 ps1] lr] eqn:E.
     destruct lr as [|e|x| |]; try discriminate. inversion Hq; subst.
     apply (fq_set_loop_io_state _ _ _ _ _ _ _ _ _ _ E). }
@@ -333,9 +346,14 @@ Proof.
   - discriminate.
 Qed.
 
+Theorem fq_read_set_io_state fuel ffuel n r rs r' rs' k :
+  fq_read_set fuel ffuel n r rs = (r', rs', QOErr (FqIo k)) ->
+  (qst r = QNew /\ qst r' = QNew) \/ qst r' = QFinished.
+Proof. intros H. destruct (fq_read_set_io_buffer _ _ _ _ _ _ _ _ H) as [A|[A _]]; [left|right]; exact A. Qed.
+
 Theorem fq_seek_io_state ffuel r line byte_ r' k : fq_seek ffuel r line byte_ = (r', QOErr (FqIo k)) ->
   (qlog r' = EvSeek byte_ (Some k) :: qlog r /\ r' = qset_log (qset_src r (qsrc r')) (qlog r')) \/
-  (exists off rest, qlog r' = EvRead off (RFailed k) :: rest ++ EvSeek byte_ None :: qlog r /\ qst r' = QFinished).
+  (exists off rest, qlog r' = EvRead off (RFailed k) :: rest ++ EvSeek byte_ None :: qlog r /\ qst r' = QFinished /\ qbuf r' = []).
 Proof.
   unfold fq_seek. intros H.
   destruct ((0 <=? Z.of_nat (p0 r) + (Z.of_nat byte_ - Z.of_nat (qbyte r)))%Z &&
@@ -346,7 +364,7 @@ Proof.
   - match type of H with (let '(r1, fr) := fq_fill ffuel ?R in _) = _ => set (r0 := R) in * end.
     destruct (fq_fill ffuel r0) as [r1 fr] eqn:E1.
     destruct fr as [n|k'|]; try discriminate. inversion H; subst. right.
-    destruct (fq_fill_err_event _ _ _ _ E1) as (off & rest & L). exists off, rest. fq_simpl. split; [exact L|reflexivity].
+    destruct (fq_fill_err_event _ _ _ _ E1) as (off & rest & L). exists off, rest. fq_simpl. splits; [exact L|reflexivity|reflexivity].
 Qed.
 
 Lemma fq_read_set_finished_sticky fuel ffuel n r rs : qst r = QFinished -> fq_read_set fuel ffuel n r rs = (r, rs, QONone).
@@ -366,7 +384,7 @@ Theorem fq_seek_refill_error_final ffuel r line byte_ r' k off rest :
   (forall fuel ffuel2, fq_next fuel ffuel2 r' = (r', QONone)) /\
   (forall fuel ffuel2 n rs, fq_read_set fuel ffuel2 n r' rs = (r', rs, QONone)).
 Proof.
-  intros H L. destruct (fq_seek_io_state _ _ _ _ _ _ H) as [[L' _]|(o & rs & _ & Hst)]; [congruence|].
+  intros H L. destruct (fq_seek_io_state _ _ _ _ _ _ H) as [[L' _]|(o & rs & _ & Hst & _)]; [congruence|].
   split; [exact Hst|]. apply fq_finished_final. exact Hst.
 Qed.
 
@@ -389,4 +407,43 @@ Theorem fq_read_set_io_error_final fuel ffuel n r rs r' rs' k :
 Proof.
   intros H Hn. destruct (fq_read_set_io_state _ _ _ _ _ _ _ _ H) as [[Hq _]|Hst]; [contradiction|].
   split; [exact Hst|]. apply fq_finished_final. exact Hst.
+Qed.
+
+(* ================================================================== *)
+(** * A seek from a reader whose buffer was dropped never takes the in-buffer shortcut *)
+
+(** with an empty buffer no target lies "inside the buffer": [seek] performs the
+    source seek (an [EvSeek] event is logged) for every target *)
+Theorem fa_seek_empty_buffer_seeks_source ffuel r line byte_ : buf r = [] ->
+  exists added, log (fst (fa_seek ffuel r line byte_)) =
+                added ++ EvSeek byte_ (snd (src_seek (src r) byte_)) :: log r.
+Proof.
+  intros Hb. unfold fa_seek. rewrite Hb. cbn [length].
+  assert (E : ((0 <=? Z.of_nat (start r) + (Z.of_nat byte_ - Z.of_nat (pbyte r)))%Z &&
+               (Z.of_nat (start r) + (Z.of_nat byte_ - Z.of_nat (pbyte r)) <? Z.of_nat 0)%Z) = false).
+  { apply andb_false_iff. destruct (Z.leb_spec 0 (Z.of_nat (start r) + (Z.of_nat byte_ - Z.of_nat (pbyte r))));
+      [right; apply Z.ltb_ge; lia|left; reflexivity]. }
+  rewrite E. destruct (src_seek (src r) byte_) as [s' res] eqn:Es. cbn [snd].
+  destruct res as [k|]; [exists []; reflexivity|].
+  match goal with |- context [fa_fill ffuel ?R] => set (r0 := R) end.
+  destruct (fa_fill ffuel r0) as [r1 fr] eqn:E1.
+  destruct (fa_fill_reads _ _ _ _ E1) as (added & L & _).
+  exists added. destruct fr; cbn [fst]; fa_simpl; rewrite L; unfold r0; fa_simpl; reflexivity.
+Qed.
+
+Theorem fq_seek_empty_buffer_seeks_source ffuel r line byte_ : qbuf r = [] ->
+  exists added, qlog (fst (fq_seek ffuel r line byte_)) =
+                added ++ EvSeek byte_ (snd (src_seek (qsrc r) byte_)) :: qlog r.
+Proof.
+  intros Hb. unfold fq_seek. rewrite Hb. cbn [length].
+  assert (E : ((0 <=? Z.of_nat (p0 r) + (Z.of_nat byte_ - Z.of_nat (qbyte r)))%Z &&
+               (Z.of_nat (p0 r) + (Z.of_nat byte_ - Z.of_nat (qbyte r)) <? Z.of_nat 0)%Z) = false).
+  { apply andb_false_iff. destruct (Z.leb_spec 0 (Z.of_nat (p0 r) + (Z.of_nat byte_ - Z.of_nat (qbyte r))));
+      [right; apply Z.ltb_ge; lia|left; reflexivity]. }
+  rewrite E. destruct (src_seek (qsrc r) byte_) as [s' res] eqn:Es. cbn [snd].
+  destruct res as [k|]; [exists []; reflexivity|].
+  match goal with |- context [fq_fill ffuel ?R] => set (r0 := R) end.
+  destruct (fq_fill ffuel r0) as [r1 fr] eqn:E1.
+  destruct (fq_fill_reads _ _ _ _ E1) as (added & L & _).
+  exists added. destruct fr; cbn [fst]; fq_simpl; rewrite L; unfold r0; fq_simpl; reflexivity.
 Qed.
